@@ -135,11 +135,14 @@ class add_callbacks:
 
     def __init__(self, *callbacks):
         self.callbacks = [normalize_callback(c) for c in callbacks]
+        # Only the callbacks this context activates are deactivated on exit:
+        # those an enclosing context or ``register`` activated stay active.
+        self._added = set(self.callbacks) - Callback.active
         Callback.active.update(self.callbacks)
 
     def __enter__(self):
         return
 
     def __exit__(self, type, value, traceback):
-        for c in self.callbacks:
+        for c in self._added:
             Callback.active.discard(c)
